@@ -444,30 +444,7 @@ func c13Explore(src *choice.Src) *core.Result {
 	}
 
 	// per-lookup oracle: what a successful lookup commits the client to
-	r.afterLookup = func(c *sw.ClientInfo, q lookupReq, lines []string, err error) {
-		if err != nil {
-			if strings.Contains(err.Error(), sumdb.ErrSecurity.Error()) {
-				res.Probes["lookup-failed-with-security-error"]++
-				if len(c.Security) == 0 {
-					res.Fail("C13", "security-callback-called", "a lookup reported the security error but the security callback was never called", "client %d Lookup(%s): %s", c.ID, q, firstLine(err.Error()))
-				}
-			}
-			return
-		}
-		if c.HasFirstConfig {
-			st.acceptHeadMsg(c, "head found in the configuration at start", c.FirstConfig)
-		}
-		key := "/lookup/" + sw.EscapeRef(q.Path) + "@" + sw.EscapeRef(strings.TrimSuffix(q.Vers, "/go.mod"))
-		data := c.Delivered[key]
-		if id, text, rest, ok := ref.SplitRecordMsg(string(data)); ok {
-			if id >= int64(k) {
-				st.accept(c, fmt.Sprintf("successful Lookup(%s) of record #%d", q, id), st.lineageOfRecord(id, text))
-			} else {
-				st.accept(c, fmt.Sprintf("successful Lookup(%s) of record #%d", q, id), st.lineageOfRecord(id, text))
-			}
-			st.acceptHeadMsg(c, fmt.Sprintf("tree head carried by the answer to Lookup(%s)", q), []byte(rest))
-		}
-	}
+	r.afterLookup = c13AfterLookup(st, res, int64(k))
 	res.Logf("C13 run: height %d, log A %d records, log B %d records, common prefix %d, %d clients, %d faults planned", height, nA, B.N(), k, nclients, len(w.Faults))
 	for i, spec := range specs {
 		res.Logf("  client %d sees log %s at size %d, start %d", i, unis[spec.Uni].Name, spec.Size, starts[i])
@@ -500,11 +477,180 @@ func c13Explore(src *choice.Src) *core.Result {
 	return res
 }
 
+func c13AfterLookup(st *c13State, res *core.Result, k int64) func(c *sw.ClientInfo, q lookupReq, lines []string, err error) {
+	return func(c *sw.ClientInfo, q lookupReq, lines []string, err error) {
+		if err != nil {
+			if strings.Contains(err.Error(), sumdb.ErrSecurity.Error()) {
+				res.Probes["lookup-failed-with-security-error"]++
+				if len(c.Security) == 0 {
+					res.Fail("C13", "security-callback-called", "a lookup reported the security error but the security callback was never called", "client %d Lookup(%s): %s", c.ID, q, firstLine(err.Error()))
+				}
+			}
+			return
+		}
+		if c.HasFirstConfig {
+			st.acceptHeadMsg(c, "head found in the configuration at start", c.FirstConfig)
+		}
+		key := "/lookup/" + sw.EscapeRef(q.Path) + "@" + sw.EscapeRef(strings.TrimSuffix(q.Vers, "/go.mod"))
+		data := c.Delivered[key]
+		if id, text, rest, ok := ref.SplitRecordMsg(string(data)); ok {
+			st.accept(c, fmt.Sprintf("successful Lookup(%s) of record #%d", q, id), st.lineageOfRecord(id, text))
+			st.acceptHeadMsg(c, fmt.Sprintf("tree head carried by the answer to Lookup(%s)", q), []byte(rest))
+		}
+	}
+}
+
+// c13SweepRun: a systematic small fork. Tape: H-1, nA-1, k, nB-k, order, which, sameProcess.
+// Phase 1: a client is shown log X in full and looks up its newest record (so the machine's stored
+// head is X's). Phase 2: the same process (view switch) or a new process on the same machine is
+// shown the other log in full and looks up one record of it.
+func c13SweepRun(src *choice.Src) *core.Result {
+	res := core.NewResult()
+	height := 1 + src.Intn(8)
+	nA := 1 + src.Intn(64)
+	k := src.Intn(nA + 1)
+	nB := k + src.Intn(16)
+	if nB == 0 {
+		nB = 1
+	}
+	order := src.Intn(2)
+	which := src.Intn(4)
+	same := src.Intn(2) == 1
+	A := buildUniverse("A", 5, nA, 0)
+	B := A.Fork("B", int64(k))
+	for i := k; B.N() < int64(nB); i++ {
+		if i < nA && i%2 == 0 {
+			B.Add(A.Mods[i], 1)
+		} else {
+			B.Add(sw.ModVer{Path: fmt.Sprintf("fork.example/b%d", i), Vers: "v1.0.0"}, 1)
+		}
+	}
+	unis := []*sw.Universe{A, B}
+	first, second := unis[order], unis[1-order]
+	r := newSumRun("C13", src, res)
+	w := r.w
+	w.Backend = sw.UniBackend{}
+	w.Universes = unis
+	r.s.SwitchNum, r.s.SwitchDen = 0, 1
+	m := w.NewMachine()
+	st := &c13State{w: w, res: res, unis: unis, k: int64(k), accepted: map[int][]c13Accepted{}, mask: map[int]int{}}
+	w.OnWriteCache = func(c *sw.ClientInfo, file string, data []byte) { w.CheckCacheWrite("C13", c, file, data) }
+	w.OnWriteConfig = st.onWriteConfig
+	req := func(u *sw.Universe, id int64) lookupReq { return lookupReq{u.Mods[id].Path, u.Mods[id].Vers} }
+	var id2 int64
+	switch which {
+	case 0:
+		id2 = second.N() - 1
+	case 1:
+		id2 = 0
+	case 2:
+		id2 = int64(k)
+	default:
+		id2 = int64(k) - 1
+	}
+	if id2 < 0 {
+		id2 = 0
+	}
+	if id2 >= second.N() {
+		id2 = second.N() - 1
+	}
+	r.afterLookup = c13AfterLookup(st, res, int64(k))
+	c1 := w.NewClient(m, r.s.NewGroup(), height, first, first.N())
+	r.clients = append(r.clients, c1)
+	spec1 := clientSpec{Height: height, Tasks: [][]lookupReq{{req(first, first.N()-1)}}}
+	if same {
+		// one process: after its first lookup the network shows it the other log
+		spec1.Tasks[0] = append(spec1.Tasks[0], req(second, id2))
+		r.specs = append(r.specs, spec1)
+		r.startClient(spec1, c1, "")
+	} else {
+		r.specs = append(r.specs, spec1)
+		r.startClient(spec1, c1, "")
+		c2 := w.NewClient(m, r.s.NewGroup(), height, second, second.N())
+		r.clients = append(r.clients, c2)
+		spec2 := clientSpec{Height: height, Tasks: [][]lookupReq{{req(second, id2)}}}
+		r.specs = append(r.specs, spec2)
+		r.s.WhenIdle(func() { r.startClient(spec2, c2, "") })
+	}
+	if same {
+		// the view switches when the client asks for the second module: serve by module, i.e. show the
+		// second log from the first request for a path that only it can answer, or after the first lookup
+		w.Backend = &c13SwitchBackend{first: first, second: second, after: 1}
+	}
+	res.Logf("C13 sweep: height %d, A %d, B %d, prefix %d, first shown %s, second lookup record %d, same process %v", height, nA, B.N(), k, first.Name, id2, same)
+	r.finish(false)
+	for _, c := range w.Clients {
+		for _, msg := range c.Security {
+			st.checkSecurityMessage(c, msg)
+		}
+	}
+	res.Sig = choice.Mix(uint64(height), uint64(nA), uint64(k), uint64(nB), uint64(order), uint64(which), choice.MixString(fmt.Sprint(same)))
+	res.Sample = map[string]interface{}{"tile_height": height, "log_A": nA, "log_B": B.N(), "common_prefix": k, "first_shown": first.Name, "second_lookup_record": id2, "same_process": same, "security_errors": res.Probes["SecurityError-called"]}
+	return res
+}
+
+// c13SwitchBackend shows a client the first log for its first `after` lookups and the second log from then on.
+type c13SwitchBackend struct {
+	first, second *sw.Universe
+	after         int
+}
+
+func (b *c13SwitchBackend) Serve(w *sw.World, c *sw.ClientInfo, path string) ([]byte, error) {
+	if strings.HasPrefix(path, "/lookup/") {
+		n := 0
+		for p := range c.RemoteReads {
+			if strings.HasPrefix(p, "/lookup/") {
+				n++
+			}
+		}
+		if n > b.after {
+			if c.Uni != b.second {
+				c.Uni, c.Size = b.second, b.second.N()
+				w.Res.Logf("NETWORK now shows client %d log %s at size %d", c.ID, b.second.Name, c.Size)
+				w.Res.Faults["view-switch"]++
+			}
+		}
+	}
+	return sw.UniBackend{}.Serve(w, c, path)
+}
+
+func c13Enumerate(quick bool, seed uint64, shard, nshards int, emit func([]uint64) bool) bool {
+	maxH, maxA := 3, 9
+	if quick {
+		maxH, maxA = 2, 6
+	}
+	n := 0
+	for h := 1; h <= maxH; h++ {
+		for nA := 1; nA <= maxA; nA++ {
+			for k := 0; k <= nA; k++ {
+				for extra := 0; extra <= 4; extra++ {
+					for order := 0; order < 2; order++ {
+						for which := 0; which < 4; which++ {
+							for same := 0; same < 2; same++ {
+								n++
+								if n%nshards != shard {
+									continue
+								}
+								if !emit([]uint64{uint64(h - 1), uint64(nA - 1), uint64(k), uint64(extra), uint64(order), uint64(which), uint64(same)}) {
+									return false
+								}
+							}
+						}
+					}
+				}
+			}
+		}
+	}
+	return true
+}
+
 func init() {
 	core.Register(&core.Prop{
 		ID:      "C13",
-		Entries: []core.Entry{{Name: "explore", Run: c13Explore}},
+		Entries: []core.Entry{{Name: "explore", Run: c13Explore}, {Name: "forksweep", Run: c13SweepRun}},
 		Explore: []string{"explore"},
+		Sweeps: []core.Sweep{{Name: "small-forks", Entry: "forksweep", Enumerate: c13Enumerate,
+			Space: "tile heights 1..3 (quick 1..2) x log A sizes 1..9 (quick 1..6) x every common prefix length x log B 0..4 records beyond the prefix x which log is shown first x which record the second lookup asks for (newest, oldest, at the fork point, just before it) x {same client process after a view switch, new process on the same machine}"}},
 		Rule: "explore: seeded pair of logs with common prefix 0..n (sizes 1-40 and prefix+0..12), both signed by the log key; 1-3 clients sharing one config and cache, each shown either log at any size, views switching mid-run, answers from the other log, cache entries from the other log, config rollback/replacement/garbage, crash-restarts, tile heights 1-8. " +
 			"Distinct = digest of the seam event log and schedule; non-trivial = at least one lookup completed.",
 		Real:        []string{"sumdb.Client (mergeLatest, mergeLatestMem, checkTrees, checkRecord, tile reading)", "tlog", "note", "sumdb.Server.ServeHTTP over harness ServerOps"},
